@@ -239,3 +239,180 @@ Proof.
   exists cf, vn, so, cs. repeat (split; [assumption|]). rewrite Etx. reflexivity.
 Qed.
 End XmiDoc.
+
+(* ================================================================================================ part 2: JSON *)
+From Cassis Require Import JsonDoc Json JsonProofs.
+Open Scope list_scope.
+Open Scope Z_scope.
+
+Lemma p2e_text_utf16 t z : off_in_text t z -> p2e_text t z = utf16_off t z.
+Proof. destruct t as [t|]; cbn [off_in_text utf16_off p2e_text]; [apply py2ext_is_utf16_prefix_len|reflexivity]. Qed.
+
+Lemma jmapM_In_fwd {A B} (f : A -> res B) l ys x : mapM f l = Ok ys -> In x l -> exists y, In y ys /\ f x = Ok y.
+Proof. intros H Hin. exact (Forall2_In_l _ _ _ x (mapM_Forall2 f l ys H) Hin). Qed.
+
+(* what the object check says about an annotation: its sofa, and the offset slots *)
+Lemma json_annotation_facts s c f ti : obj_okb s c f = true -> sch_find s (o_type f) = Some ti ->
+  is_array_name (o_type f) = false -> isa s (o_type f) T_ANNOTATION = true ->
+  (forall fd, In fd (ti_feats ti) -> name_okb (fd_xname fd) = true) /\ NoDup (map fd_xname (ti_feats ti)) /\
+  exists vn sf, slot f "sofa" = VSofa vn /\ find_sofa c vn = Some sf /\
+    forall x z, x = "begin" \/ x = "end" -> slot f x = VInt z ->
+      off_in_text (s_text sf) z /\ exists fd, In fd (ti_feats ti) /\ fd_xname fd = x /\ fd_name fd = x.
+Proof.
+  intros Hok Hti Harr Ha. unfold obj_okb in Hok. rewrite Hti, Harr, Ha in Hok.
+  apply andb_true_iff in Hok. destruct Hok as [_ Hok]. apply andb_true_iff in Hok. destruct Hok as [Hok Hann].
+  apply andb_true_iff in Hok. destruct Hok as [Hn Hd].
+  split; [intros fd Hfd; exact (proj1 (forallb_forall _ _) Hn fd Hfd)|]. split; [apply snodup_NoDup; exact Hd|].
+  destruct (slot f "sofa") as [| | | | | | |vn] eqn:Es; try discriminate.
+  destruct (find_sofa c vn) as [sf|] eqn:Ev; [|discriminate].
+  apply andb_true_iff in Hann. destruct Hann as [Hoff Hx]. apply andb_true_iff in Hoff. destruct Hoff as [Hb He].
+  destruct (xfind (ti_feats ti) "begin") as [b|] eqn:Xb; [|discriminate].
+  destruct (xfind (ti_feats ti) "end") as [e|] eqn:Xe; [|discriminate].
+  destruct (xfind (ti_feats ti) "sofa") as [so|] eqn:Xs; [|discriminate].
+  rewrite !andb_true_iff in Hx. destruct Hx as [[[Nb Ne] _] _]. apply String.eqb_eq in Nb. apply String.eqb_eq in Ne.
+  exists vn, sf. split; [reflexivity|]. split; [exact Ev|].
+  intros x z [-> | ->] Hs.
+  - rewrite Hs in Hb. split.
+    + unfold off_in_text. destruct (s_text sf) as [t|]; [lia|exact I].
+    + destruct (xfind_in _ _ _ Xb) as [Hin Hxn]. exists b. repeat split; assumption.
+  - rewrite Hs in He. split.
+    + unfold off_in_text. destruct (s_text sf) as [t|]; [lia|exact I].
+    + destruct (xfind_in _ _ _ Xe) as [Hin Hxn]. exists e. repeat split; assumption.
+Qed.
+
+(* the member of one offset feature in the entry of an annotation *)
+Lemma json_entry_offsets L s c f m : Json.enc_fs L s c f = Ok m -> obj_okb s c f = true ->
+  is_array_name (o_type f) = false -> isa s (o_type f) T_ANNOTATION = true ->
+  exists vn sf, slot f "sofa" = VSofa vn /\ find_sofa c vn = Some sf /\
+    forall x z, x = "begin" \/ x = "end" -> slot f x = VInt z ->
+      off_in_text (s_text sf) z /\ alookup x m = Some (JInt (utf16_off (s_text sf) z)).
+Proof.
+  intros Hm Hok Harr Ha.
+  assert (Hti : exists ti, sch_find s (o_type f) = Some ti).
+  { unfold obj_okb in Hok. destruct (sch_find s (o_type f)) as [ti|]; [eauto|]. rewrite andb_false_r in Hok. discriminate. }
+  destruct Hti as (ti & Hti).
+  destruct (json_annotation_facts s c f ti Hok Hti Harr Ha) as (Hnames & Hnd & vn & sf & Es & Ev & Hoff).
+  exists vn, sf. split; [exact Es|]. split; [exact Ev|].
+  intros x z Hx Hs. destruct (Hoff x z Hx Hs) as (Hit & fd & Hfd & Exn & En). split; [exact Hit|].
+  unfold Json.enc_fs in Hm. rewrite Harr, Hti in Hm.
+  destruct (mapM (Json.enc_feature c s (o_type f) f) (ti_feats ti)) as [mss| |] eqn:EM; cbn [bind] in Hm; try discriminate.
+  inversion Hm; subst m. clear Hm.
+  destruct (jmapM_In_fwd _ _ _ _ EM Hfd) as (msb & _ & Eb).
+  (* the members this feature contributes *)
+  assert (Emsb : msb = [(x, JInt (utf16_off (s_text sf) z))]).
+  { unfold Json.enc_feature in Eb. rewrite En, Hs in Eb. cbn [is_vnone] in Eb.
+    unfold doc_val in Eb. rewrite Ha, Exn in Eb.
+    assert (Hon : is_offset_name x = true) by (destruct Hx as [->| ->]; reflexivity). rewrite Hon in Eb. cbn [andb] in Eb.
+    rewrite Es, Ev in Eb. cbn [bind] in Eb. rewrite (p2e_text_utf16 _ _ Hit) in Eb.
+    unfold Json.enc_value in Eb. rewrite Exn in Eb.
+    destruct (String.eqb (fd_range fd) T_FLOAT || String.eqb (fd_range fd) T_DOUBLE); [inversion Eb; reflexivity|].
+    destruct (is_primitive s (fd_range fd)); cbn [plain_json ref_json ref_id bind] in Eb; [inversion Eb; reflexivity|discriminate]. }
+  assert (Hbase : alookup x [(K_ID, id_json f); (K_TYPE, JStr (o_type f))] = None) by (destruct Hx as [->| ->]; reflexivity).
+  change (alookup x ([(K_ID, id_json f); (K_TYPE, JStr (o_type f))] ++ List.concat mss) = Some (JInt (utf16_off (s_text sf) z))).
+  rewrite alookup_app, Hbase.
+  destruct (concat_lookup c s (o_type f) f (ti_feats ti) mss (mapM_Forall2 _ _ _ EM) Hnd Hnames fd x) as [_ Hl].
+  { apply Hnames. exact Hfd. }
+  { left. symmetry. exact Exn. }
+  rewrite (Hl msb Hfd Eb), Emsb. cbn [alookup]. rewrite String.eqb_refl. reflexivity.
+Qed.
+
+Section JsonDocOffsets.
+Variables (L : lex) (s : schema) (mode : tsmode).
+
+(* C03 (JSON, writer): offsets in the document are UTF-16 code units of the text of the annotation's own sofa *)
+Theorem json_doc_offsets_are_utf16 c d c2 :
+  lex_ok L -> save_json L s mode c = Ok (d, c2) -> wf_jsonb s c2 = true -> 0 < c_next_id c ->
+  exists w types sofa_fs fss views,
+    find_all_fs true s c2 = Ok w /\
+    (* the structures written: exactly those reachable from an indexed one — indexed or merely referenced, in any view *)
+    (forall o, In o (map snd (w_all w)) <-> reach true s (c_heap c2) (member_seeds c2) o /\ ~ null_in (c_heap c2) o) /\
+    d = JObj (types ++ [(K_FS, JArr (sofa_fs ++ fss)); (K_VIEWS, JObj views)]) /\
+    Forall2 (fun io j => exists f m, hget (c_heap c2) (snd io) = Some f /\ o_id f = Some (fst io) /\ j = JObj m /\
+               alookup K_ID m = Some (JInt (fst io)) /\
+               (is_array_name (o_type f) = false -> isa s (o_type f) T_ANNOTATION = true ->
+                exists vn sf, slot f "sofa" = VSofa vn /\ find_sofa c2 vn = Some sf /\
+                  forall x z, x = "begin" \/ x = "end" -> slot f x = VInt z ->
+                    off_in_text (s_text sf) z /\ alookup x m = Some (JInt (utf16_off (s_text sf) z))))
+            (sort_ids (w_all w)) fss.
+Proof.
+  intros HL HS WF Hpos.
+  destruct (save_json_parts L s mode c d c2 HL HS WF Hpos)
+    as (w & types & outs & fss & Ev & Ef & sofas & Ew & _ & _ & _ & -> & _ & Efss & _ & _ & Hfound & _).
+  exists w, types, (List.concat (map fst outs)), fss, (map snd outs).
+  split; [exact Ew|]. split.
+  { intros o. rewrite find_all_fs_from in Ew. exact (find_all_exact _ _ _ _ _ Ew o). }
+  split; [reflexivity|].
+  pose proof (mapM_Forall2 _ _ _ Efss) as F2.
+  assert (Hsub : forall io, In io (sort_ids (w_all w)) -> found_okP s c2 io) by (intros io Hio; apply Hfound; apply (proj1 (sort_ids_In _ _)); exact Hio).
+  clear Efss HS. revert F2 Hsub. generalize (sort_ids (w_all w)) as found. intros found F2.
+  induction F2 as [|io j l l' Hj _ IH]; intros Hsub; constructor.
+  - destruct (Hsub io (or_introl eq_refl)) as (f & Hg & Hok & Hi).
+    unfold fs_at in Hj. rewrite Hg in Hj. cbn [bind] in Hj.
+    destruct (Json.enc_fs L s c2 f) as [m| |] eqn:Em; cbn [bind] in Hj; try discriminate. inversion Hj; subst j.
+    exists f, m. split; [exact Hg|]. split; [exact Hi|]. split; [reflexivity|]. split.
+    + destruct (enc_fs_head L s c2 f m Em) as (rest & ->). unfold id_json. rewrite Hi. reflexivity.
+    + intros Harr Ha. exact (json_entry_offsets L s c2 f m Em Hok Harr Ha).
+  - apply IH. intros x Hx. apply Hsub. right. exact Hx.
+Qed.
+
+(* C03 (JSON, reader side): read by the declarative semantics of the format, the saved document gives back the code-point
+   offsets of every written annotation, attached to a sofa with the same text: the covered text is preserved *)
+Theorem json_loaded_offsets_are_codepoints c d c2 cc :
+  lex_ok L -> save_json L s mode c = Ok (d, c2) -> wf_jsonb s c2 = true -> 0 < c_next_id c ->
+  denote_json L s d = Ok cc ->
+  exists w, find_all_fs true s c2 = Ok w /\
+    forall i o f, In (i, o) (w_all w) -> hget (c_heap c2) o = Some f ->
+      is_array_name (o_type f) = false -> isa s (o_type f) T_ANNOTATION = true ->
+      exists cf vn sf cs, In (i, cf) (cc_fs cc) /\ cf_type cf = o_type f /\
+        slot f "sofa" = VSofa vn /\ find_sofa c2 vn = Some sf /\
+        In cs (cc_sofas cc) /\ cs_id cs = s_xid sf /\ cs_text cs = s_text sf /\
+        forall x z, x = "begin" \/ x = "end" -> slot f x = VInt z ->
+          off_in_text (s_text sf) z /\ In (x, CInt z) (cf_feats cf) /\ covered (cs_text cs) z z = covered (s_text sf) z z.
+Proof.
+  intros HL HS WF Hpos Hden.
+  destruct (save_json_parts L s mode c d c2 HL HS WF Hpos)
+    as (w & types & outs & fss & Ev & Ef & sofas & Ew & _ & _ & _ & _ & _ & _ & _ & _ & Hfound & _).
+  exists w. split; [exact Ew|].
+  rewrite (denote_save_json L s mode c d c2 HL HS WF Hpos) in Hden. unfold canon_json in Hden. rewrite Ew in Hden. cbn [bind] in Hden.
+  unfold Json.canon_of in Hden.
+  destruct (mapM _ (sofa_arrays c2 ++ map snd (sort_ids (w_all w)))) as [items| |] eqn:Eit; cbn [bind] in Hden; try discriminate.
+  destruct (mapM (Json.canon_sofa c2) (c_views c2)) as [csofas| |] eqn:Eso; cbn [bind] in Hden; try discriminate.
+  inversion Hden; subst cc. clear Hden. cbn [cc_fs cc_sofas].
+  intros i o f Hin Hg Harr Ha.
+  destruct (Hfound (i, o) Hin) as (f0 & Hg0 & Hok & Hi). cbn [fst snd] in Hg0, Hi. rewrite Hg in Hg0. inversion Hg0; subst f0. clear Hg0.
+  assert (Hti : exists ti, sch_find s (o_type f) = Some ti).
+  { unfold obj_okb in Hok. destruct (sch_find s (o_type f)) as [ti|]; [eauto|]. rewrite andb_false_r in Hok. discriminate. }
+  destruct Hti as (ti & Hti).
+  destruct (json_annotation_facts s c2 f ti Hok Hti Harr Ha) as (_ & _ & vn & sf & Es & Evs & Hoff).
+  (* the entry of this structure in the canonical content *)
+  assert (Ho : In o (sofa_arrays c2 ++ map snd (sort_ids (w_all w)))).
+  { apply in_or_app. right. apply in_map_iff. exists (i, o). split; [reflexivity|apply (proj2 (sort_ids_In _ _)); exact Hin]. }
+  destruct (jmapM_In_fwd _ _ _ _ Eit Ho) as (y & Hy & Ey). cbv beta in Ey. rewrite Hg, Hi in Ey.
+  destruct (Json.canon_fs s c2 f) as [cf| |] eqn:Ecf; cbn [bind] in Ey; try discriminate. inversion Ey; subst y. clear Ey.
+  unfold Json.canon_fs in Ecf. rewrite Hti, Harr in Ecf.
+  destruct (mapM _ (ti_feats ti)) as [fv| |] eqn:Efv; cbn [bind] in Ecf; try discriminate. inversion Ecf; subst cf. clear Ecf.
+  (* the sofa *)
+  assert (Hv : exists v, In v (c_views c2) /\ v_sofa v = sf).
+  { unfold find_sofa in Evs. destruct (find _ (c_views c2)) as [v|] eqn:Efi; [|discriminate]. cbn [option_map] in Evs. inversion Evs.
+    exists v. split; [exact (proj1 (find_some _ _ Efi))|reflexivity]. }
+  destruct Hv as (v & Hv & Evsf).
+  destruct (jmapM_In_fwd _ _ _ _ Eso Hv) as (cs & Hcs & Ecs).
+  assert (Hcsid : cs_id cs = s_xid sf /\ cs_text cs = s_text sf).
+  { unfold Json.canon_sofa in Ecs. destruct (match s_arr (v_sofa v) with None => Ok None | Some o0 => _ end); cbn [bind] in Ecs; try discriminate.
+    destruct (member_ids (c_heap c2) (v_members v)); cbn [bind] in Ecs; try discriminate. inversion Ecs; subst cs. cbn [cs_id cs_text]. rewrite Evsf. split; reflexivity. }
+  exists (mkCfs (o_type f) (sort_feats fv)), vn, sf, cs.
+  split; [eapply Permutation_in; [apply Permutation_sym; apply sort_by_perm|exact Hy]|].
+  split; [reflexivity|]. split; [exact Es|]. split; [exact Evs|].
+  split; [eapply Permutation_in; [apply Permutation_sym; apply sort_by_perm|exact Hcs]|].
+  split; [exact (proj1 Hcsid)|]. split; [exact (proj2 Hcsid)|].
+  intros x z Hx Hs. destruct (Hoff x z Hx Hs) as (Hit & fd & Hfd & Exn & En). split; [exact Hit|]. split.
+  - destruct (jmapM_In_fwd _ _ _ _ Efv Hfd) as (nv & Hnv & Env). cbv beta in Env. rewrite En, Hs in Env. cbn [cv_json cv_atom bind] in Env.
+    inversion Env; subst nv. rewrite Exn in Hnv. cbn [cf_feats].
+    clear -Hnv. unfold sort_feats. induction fv as [|y r IH]; [destruct Hnv|]. cbn [fold_right].
+    assert (Hins : forall a l, In a (finsert y l) <-> a = y \/ In a l).
+    { intros a l. induction l as [|q l IHl]; cbn [finsert In]; [intuition congruence|].
+      destruct (String.leb (fst y) (fst q)); cbn [In]; [intuition congruence|]. rewrite IHl. intuition congruence. }
+    apply Hins. destruct Hnv as [->|Hnv]; [left; reflexivity|right; apply IH; exact Hnv].
+  - rewrite (proj2 Hcsid). reflexivity.
+Qed.
+End JsonDocOffsets.
